@@ -421,7 +421,12 @@ def signature(case, obs, msg):
         # a size line that parses to a negative number reaches http.client's read(-n) / int(): the call site of C13-F1, however the '-' got there
         return {"kind": "negative-chunk-size"}
     if "(after DecodeError)" in (msg or ""):
-        return {"kind": "connection-kept-after-decode-error"}
+        # the paths on which the decoder runs after the framing has been read to its end, outside the error catcher: read(), read(n),
+        # read1(...) and - for a body with a length - stream(n), which loops over read(n); stream() / read_chunked() on a chunked body
+        # and a preloaded body decode inside the catcher and close the connection
+        if case["api"][0] in ("read", "read_n", "read1_n", "read1_all") or (case["api"][0] == "stream" and case["framing"] == "len"):
+            return {"kind": "connection-kept-after-decode-error"}
+        return {"msg": (msg or "")[:50], "api": case["api"][0], "framing": case["framing"]}
     codings = [x.strip() for x in case["coding"].split(",")]
     if "but reading ended normally" in (msg or "") and "incomplete" in (msg or "") and len(codings) > 1 and codings[-1] in ("zstd", "zstd2"):
         return {"kind": "outer-zstd-of-a-stack-not-flushed"}
